@@ -175,6 +175,8 @@ macro "ch_close" : tactic => `(tactic| first | rfl | (simp [*]; done) | (simp [*
 @[simp] theorem supply2_setCH : (setCH s h t).supply2 = s.supply2 := rfl
 @[simp] theorem upgrade_setCH : (setCH s h t).upgrade = s.upgrade := rfl
 @[simp] theorem keyNodes_setCH : (setCH s h t).keyNodes = s.keyNodes := rfl
+@[simp] theorem accts_setCH : (setCH s h t).accts = s.accts := rfl
+@[simp] theorem keyed_setCH : (setCH s h t).keyed = s.keyed := rfl
 @[simp] theorem cHeight_setCH : (setCH s h t).cHeight = h := rfl
 @[simp] theorem cTime_setCH : (setCH s h t).cTime = t := rfl
 
@@ -190,11 +192,13 @@ macro "ch_close" : tactic => `(tactic| first | rfl | (simp [*]; done) | (simp [*
 @[simp] theorem keyAddr_setCH (k : Nat) : keyAddr (setCH s h t) k = keyAddr s k := rfl
 @[simp] theorem balOf_setCH (a : Addr) : balOf (setCH s h t) a = balOf s a := rfl
 @[simp] theorem setBal_setCH (a : Addr) (x : Int) : setBal (setCH s h t) a x = setCH (setBal s a x) h t := rfl
+@[simp] theorem touch_setCH (a : Addr) : touch (setCH s h t) a = setCH (touch s a) h t := rfl
+@[simp] theorem acctExists_setCH (a : Addr) : acctExists (setCH s h t) a = acctExists s a := rfl
 
 @[simp] theorem send_setCH (src dst : Addr) (amt : Int) :
     send (setCH s h t) src dst amt = (send s src dst amt).map (setCH · h t) := by
   unfold send
-  simp only [balOf_setCH, setBal_setCH]
+  simp only [balOf_setCH, setBal_setCH, touch_setCH]
   split <;> ch_close
 
 @[simp] theorem balOf2_setCH (a : Addr) : balOf2 (setCH s h t) a = balOf2 s a := rfl
@@ -250,43 +254,45 @@ macro "ch_step" : tactic =>
 macro "ch_auto" : tactic => `(tactic| repeat' (first | rfl | ch_step))
 
 /-- a state with an empty check-state header -/
-def mk0 (x_bal : List (Addr × Int)) (x_supply : Int) (x_vals : List (Addr × Val)) (x_idx : List (Int × Addr)) (x_prev : List (Addr × Int)) (x_prevTot : Int) (x_queue : List (Int × List Addr)) (x_sign : List (Addr × Sign)) (x_missedBits : List ((Addr × Int) × Bool)) (x_awards : List (Addr × Int)) (x_burns : List (Addr × Int)) (x_proposer : Addr) (x_rel : List Addr) (x_p : Params) (x_acl : List (String × Addr)) (x_daoOwner : Addr) (x_pool : Addr) (x_feeAcc : Addr) (x_posAcc : Addr) (x_daoAcc : Addr) (x_keys : List (Nat × Addr)) (x_nStored : Nat) (x_height : Int) (x_time : Int) (x_index : List String) (x_blockTxs : List String) (x_bal2 : List (Addr × Int)) (x_supply2 : Int) (x_upgrade : Int × String) (x_keyNodes : List (Nat × Nat)) : State :=
-  { bal := x_bal, supply := x_supply, vals := x_vals, idx := x_idx, prev := x_prev, prevTot := x_prevTot, queue := x_queue, sign := x_sign, missedBits := x_missedBits, awards := x_awards, burns := x_burns, proposer := x_proposer, rel := x_rel, p := x_p, acl := x_acl, daoOwner := x_daoOwner, pool := x_pool, feeAcc := x_feeAcc, posAcc := x_posAcc, daoAcc := x_daoAcc, keys := x_keys, nStored := x_nStored, height := x_height, time := x_time, index := x_index, blockTxs := x_blockTxs, cHeight := 0, cTime := 0, bal2 := x_bal2, supply2 := x_supply2, upgrade := x_upgrade, keyNodes := x_keyNodes }
+def mk0 (x_bal : List (Addr × Int)) (x_supply : Int) (x_vals : List (Addr × Val)) (x_idx : List (Int × Addr)) (x_prev : List (Addr × Int)) (x_prevTot : Int) (x_queue : List (Int × List Addr)) (x_sign : List (Addr × Sign)) (x_missedBits : List ((Addr × Int) × Bool)) (x_awards : List (Addr × Int)) (x_burns : List (Addr × Int)) (x_proposer : Addr) (x_rel : List Addr) (x_p : Params) (x_acl : List (String × Addr)) (x_daoOwner : Addr) (x_pool : Addr) (x_feeAcc : Addr) (x_posAcc : Addr) (x_daoAcc : Addr) (x_keys : List (Nat × Addr)) (x_nStored : Nat) (x_height : Int) (x_time : Int) (x_index : List String) (x_blockTxs : List String) (x_bal2 : List (Addr × Int)) (x_supply2 : Int) (x_upgrade : Int × String) (x_keyNodes : List (Nat × Nat)) (x_accts : List (Addr × Unit)) (x_keyed : List Addr) : State :=
+  { bal := x_bal, supply := x_supply, vals := x_vals, idx := x_idx, prev := x_prev, prevTot := x_prevTot, queue := x_queue, sign := x_sign, missedBits := x_missedBits, awards := x_awards, burns := x_burns, proposer := x_proposer, rel := x_rel, p := x_p, acl := x_acl, daoOwner := x_daoOwner, pool := x_pool, feeAcc := x_feeAcc, posAcc := x_posAcc, daoAcc := x_daoAcc, keys := x_keys, nStored := x_nStored, height := x_height, time := x_time, index := x_index, blockTxs := x_blockTxs, cHeight := 0, cTime := 0, bal2 := x_bal2, supply2 := x_supply2, upgrade := x_upgrade, keyNodes := x_keyNodes, accts := x_accts, keyed := x_keyed }
 section mk0
-variable (x_bal : List (Addr × Int)) (x_supply : Int) (x_vals : List (Addr × Val)) (x_idx : List (Int × Addr)) (x_prev : List (Addr × Int)) (x_prevTot : Int) (x_queue : List (Int × List Addr)) (x_sign : List (Addr × Sign)) (x_missedBits : List ((Addr × Int) × Bool)) (x_awards : List (Addr × Int)) (x_burns : List (Addr × Int)) (x_proposer : Addr) (x_rel : List Addr) (x_p : Params) (x_acl : List (String × Addr)) (x_daoOwner : Addr) (x_pool : Addr) (x_feeAcc : Addr) (x_posAcc : Addr) (x_daoAcc : Addr) (x_keys : List (Nat × Addr)) (x_nStored : Nat) (x_height : Int) (x_time : Int) (x_index : List String) (x_blockTxs : List String) (x_bal2 : List (Addr × Int)) (x_supply2 : Int) (x_upgrade : Int × String) (x_keyNodes : List (Nat × Nat)) (x_cHeight x_cTime : Int)
+variable (x_bal : List (Addr × Int)) (x_supply : Int) (x_vals : List (Addr × Val)) (x_idx : List (Int × Addr)) (x_prev : List (Addr × Int)) (x_prevTot : Int) (x_queue : List (Int × List Addr)) (x_sign : List (Addr × Sign)) (x_missedBits : List ((Addr × Int) × Bool)) (x_awards : List (Addr × Int)) (x_burns : List (Addr × Int)) (x_proposer : Addr) (x_rel : List Addr) (x_p : Params) (x_acl : List (String × Addr)) (x_daoOwner : Addr) (x_pool : Addr) (x_feeAcc : Addr) (x_posAcc : Addr) (x_daoAcc : Addr) (x_keys : List (Nat × Addr)) (x_nStored : Nat) (x_height : Int) (x_time : Int) (x_index : List String) (x_blockTxs : List String) (x_bal2 : List (Addr × Int)) (x_supply2 : Int) (x_upgrade : Int × String) (x_keyNodes : List (Nat × Nat)) (x_accts : List (Addr × Unit)) (x_keyed : List Addr) (x_cHeight x_cTime : Int)
 theorem mk_eq :
-    State.mk x_bal x_supply x_vals x_idx x_prev x_prevTot x_queue x_sign x_missedBits x_awards x_burns x_proposer x_rel x_p x_acl x_daoOwner x_pool x_feeAcc x_posAcc x_daoAcc x_keys x_nStored x_height x_time x_cHeight x_cTime x_index x_blockTxs x_bal2 x_supply2 x_upgrade x_keyNodes =
-      setCH (mk0 x_bal x_supply x_vals x_idx x_prev x_prevTot x_queue x_sign x_missedBits x_awards x_burns x_proposer x_rel x_p x_acl x_daoOwner x_pool x_feeAcc x_posAcc x_daoAcc x_keys x_nStored x_height x_time x_index x_blockTxs x_bal2 x_supply2 x_upgrade x_keyNodes) x_cHeight x_cTime := rfl
-@[simp] theorem mk0_bal : (mk0 x_bal x_supply x_vals x_idx x_prev x_prevTot x_queue x_sign x_missedBits x_awards x_burns x_proposer x_rel x_p x_acl x_daoOwner x_pool x_feeAcc x_posAcc x_daoAcc x_keys x_nStored x_height x_time x_index x_blockTxs x_bal2 x_supply2 x_upgrade x_keyNodes).bal = x_bal := rfl
-@[simp] theorem mk0_supply : (mk0 x_bal x_supply x_vals x_idx x_prev x_prevTot x_queue x_sign x_missedBits x_awards x_burns x_proposer x_rel x_p x_acl x_daoOwner x_pool x_feeAcc x_posAcc x_daoAcc x_keys x_nStored x_height x_time x_index x_blockTxs x_bal2 x_supply2 x_upgrade x_keyNodes).supply = x_supply := rfl
-@[simp] theorem mk0_vals : (mk0 x_bal x_supply x_vals x_idx x_prev x_prevTot x_queue x_sign x_missedBits x_awards x_burns x_proposer x_rel x_p x_acl x_daoOwner x_pool x_feeAcc x_posAcc x_daoAcc x_keys x_nStored x_height x_time x_index x_blockTxs x_bal2 x_supply2 x_upgrade x_keyNodes).vals = x_vals := rfl
-@[simp] theorem mk0_idx : (mk0 x_bal x_supply x_vals x_idx x_prev x_prevTot x_queue x_sign x_missedBits x_awards x_burns x_proposer x_rel x_p x_acl x_daoOwner x_pool x_feeAcc x_posAcc x_daoAcc x_keys x_nStored x_height x_time x_index x_blockTxs x_bal2 x_supply2 x_upgrade x_keyNodes).idx = x_idx := rfl
-@[simp] theorem mk0_prev : (mk0 x_bal x_supply x_vals x_idx x_prev x_prevTot x_queue x_sign x_missedBits x_awards x_burns x_proposer x_rel x_p x_acl x_daoOwner x_pool x_feeAcc x_posAcc x_daoAcc x_keys x_nStored x_height x_time x_index x_blockTxs x_bal2 x_supply2 x_upgrade x_keyNodes).prev = x_prev := rfl
-@[simp] theorem mk0_prevTot : (mk0 x_bal x_supply x_vals x_idx x_prev x_prevTot x_queue x_sign x_missedBits x_awards x_burns x_proposer x_rel x_p x_acl x_daoOwner x_pool x_feeAcc x_posAcc x_daoAcc x_keys x_nStored x_height x_time x_index x_blockTxs x_bal2 x_supply2 x_upgrade x_keyNodes).prevTot = x_prevTot := rfl
-@[simp] theorem mk0_queue : (mk0 x_bal x_supply x_vals x_idx x_prev x_prevTot x_queue x_sign x_missedBits x_awards x_burns x_proposer x_rel x_p x_acl x_daoOwner x_pool x_feeAcc x_posAcc x_daoAcc x_keys x_nStored x_height x_time x_index x_blockTxs x_bal2 x_supply2 x_upgrade x_keyNodes).queue = x_queue := rfl
-@[simp] theorem mk0_sign : (mk0 x_bal x_supply x_vals x_idx x_prev x_prevTot x_queue x_sign x_missedBits x_awards x_burns x_proposer x_rel x_p x_acl x_daoOwner x_pool x_feeAcc x_posAcc x_daoAcc x_keys x_nStored x_height x_time x_index x_blockTxs x_bal2 x_supply2 x_upgrade x_keyNodes).sign = x_sign := rfl
-@[simp] theorem mk0_missedBits : (mk0 x_bal x_supply x_vals x_idx x_prev x_prevTot x_queue x_sign x_missedBits x_awards x_burns x_proposer x_rel x_p x_acl x_daoOwner x_pool x_feeAcc x_posAcc x_daoAcc x_keys x_nStored x_height x_time x_index x_blockTxs x_bal2 x_supply2 x_upgrade x_keyNodes).missedBits = x_missedBits := rfl
-@[simp] theorem mk0_awards : (mk0 x_bal x_supply x_vals x_idx x_prev x_prevTot x_queue x_sign x_missedBits x_awards x_burns x_proposer x_rel x_p x_acl x_daoOwner x_pool x_feeAcc x_posAcc x_daoAcc x_keys x_nStored x_height x_time x_index x_blockTxs x_bal2 x_supply2 x_upgrade x_keyNodes).awards = x_awards := rfl
-@[simp] theorem mk0_burns : (mk0 x_bal x_supply x_vals x_idx x_prev x_prevTot x_queue x_sign x_missedBits x_awards x_burns x_proposer x_rel x_p x_acl x_daoOwner x_pool x_feeAcc x_posAcc x_daoAcc x_keys x_nStored x_height x_time x_index x_blockTxs x_bal2 x_supply2 x_upgrade x_keyNodes).burns = x_burns := rfl
-@[simp] theorem mk0_proposer : (mk0 x_bal x_supply x_vals x_idx x_prev x_prevTot x_queue x_sign x_missedBits x_awards x_burns x_proposer x_rel x_p x_acl x_daoOwner x_pool x_feeAcc x_posAcc x_daoAcc x_keys x_nStored x_height x_time x_index x_blockTxs x_bal2 x_supply2 x_upgrade x_keyNodes).proposer = x_proposer := rfl
-@[simp] theorem mk0_rel : (mk0 x_bal x_supply x_vals x_idx x_prev x_prevTot x_queue x_sign x_missedBits x_awards x_burns x_proposer x_rel x_p x_acl x_daoOwner x_pool x_feeAcc x_posAcc x_daoAcc x_keys x_nStored x_height x_time x_index x_blockTxs x_bal2 x_supply2 x_upgrade x_keyNodes).rel = x_rel := rfl
-@[simp] theorem mk0_p : (mk0 x_bal x_supply x_vals x_idx x_prev x_prevTot x_queue x_sign x_missedBits x_awards x_burns x_proposer x_rel x_p x_acl x_daoOwner x_pool x_feeAcc x_posAcc x_daoAcc x_keys x_nStored x_height x_time x_index x_blockTxs x_bal2 x_supply2 x_upgrade x_keyNodes).p = x_p := rfl
-@[simp] theorem mk0_acl : (mk0 x_bal x_supply x_vals x_idx x_prev x_prevTot x_queue x_sign x_missedBits x_awards x_burns x_proposer x_rel x_p x_acl x_daoOwner x_pool x_feeAcc x_posAcc x_daoAcc x_keys x_nStored x_height x_time x_index x_blockTxs x_bal2 x_supply2 x_upgrade x_keyNodes).acl = x_acl := rfl
-@[simp] theorem mk0_daoOwner : (mk0 x_bal x_supply x_vals x_idx x_prev x_prevTot x_queue x_sign x_missedBits x_awards x_burns x_proposer x_rel x_p x_acl x_daoOwner x_pool x_feeAcc x_posAcc x_daoAcc x_keys x_nStored x_height x_time x_index x_blockTxs x_bal2 x_supply2 x_upgrade x_keyNodes).daoOwner = x_daoOwner := rfl
-@[simp] theorem mk0_pool : (mk0 x_bal x_supply x_vals x_idx x_prev x_prevTot x_queue x_sign x_missedBits x_awards x_burns x_proposer x_rel x_p x_acl x_daoOwner x_pool x_feeAcc x_posAcc x_daoAcc x_keys x_nStored x_height x_time x_index x_blockTxs x_bal2 x_supply2 x_upgrade x_keyNodes).pool = x_pool := rfl
-@[simp] theorem mk0_feeAcc : (mk0 x_bal x_supply x_vals x_idx x_prev x_prevTot x_queue x_sign x_missedBits x_awards x_burns x_proposer x_rel x_p x_acl x_daoOwner x_pool x_feeAcc x_posAcc x_daoAcc x_keys x_nStored x_height x_time x_index x_blockTxs x_bal2 x_supply2 x_upgrade x_keyNodes).feeAcc = x_feeAcc := rfl
-@[simp] theorem mk0_posAcc : (mk0 x_bal x_supply x_vals x_idx x_prev x_prevTot x_queue x_sign x_missedBits x_awards x_burns x_proposer x_rel x_p x_acl x_daoOwner x_pool x_feeAcc x_posAcc x_daoAcc x_keys x_nStored x_height x_time x_index x_blockTxs x_bal2 x_supply2 x_upgrade x_keyNodes).posAcc = x_posAcc := rfl
-@[simp] theorem mk0_daoAcc : (mk0 x_bal x_supply x_vals x_idx x_prev x_prevTot x_queue x_sign x_missedBits x_awards x_burns x_proposer x_rel x_p x_acl x_daoOwner x_pool x_feeAcc x_posAcc x_daoAcc x_keys x_nStored x_height x_time x_index x_blockTxs x_bal2 x_supply2 x_upgrade x_keyNodes).daoAcc = x_daoAcc := rfl
-@[simp] theorem mk0_keys : (mk0 x_bal x_supply x_vals x_idx x_prev x_prevTot x_queue x_sign x_missedBits x_awards x_burns x_proposer x_rel x_p x_acl x_daoOwner x_pool x_feeAcc x_posAcc x_daoAcc x_keys x_nStored x_height x_time x_index x_blockTxs x_bal2 x_supply2 x_upgrade x_keyNodes).keys = x_keys := rfl
-@[simp] theorem mk0_nStored : (mk0 x_bal x_supply x_vals x_idx x_prev x_prevTot x_queue x_sign x_missedBits x_awards x_burns x_proposer x_rel x_p x_acl x_daoOwner x_pool x_feeAcc x_posAcc x_daoAcc x_keys x_nStored x_height x_time x_index x_blockTxs x_bal2 x_supply2 x_upgrade x_keyNodes).nStored = x_nStored := rfl
-@[simp] theorem mk0_height : (mk0 x_bal x_supply x_vals x_idx x_prev x_prevTot x_queue x_sign x_missedBits x_awards x_burns x_proposer x_rel x_p x_acl x_daoOwner x_pool x_feeAcc x_posAcc x_daoAcc x_keys x_nStored x_height x_time x_index x_blockTxs x_bal2 x_supply2 x_upgrade x_keyNodes).height = x_height := rfl
-@[simp] theorem mk0_time : (mk0 x_bal x_supply x_vals x_idx x_prev x_prevTot x_queue x_sign x_missedBits x_awards x_burns x_proposer x_rel x_p x_acl x_daoOwner x_pool x_feeAcc x_posAcc x_daoAcc x_keys x_nStored x_height x_time x_index x_blockTxs x_bal2 x_supply2 x_upgrade x_keyNodes).time = x_time := rfl
-@[simp] theorem mk0_index : (mk0 x_bal x_supply x_vals x_idx x_prev x_prevTot x_queue x_sign x_missedBits x_awards x_burns x_proposer x_rel x_p x_acl x_daoOwner x_pool x_feeAcc x_posAcc x_daoAcc x_keys x_nStored x_height x_time x_index x_blockTxs x_bal2 x_supply2 x_upgrade x_keyNodes).index = x_index := rfl
-@[simp] theorem mk0_blockTxs : (mk0 x_bal x_supply x_vals x_idx x_prev x_prevTot x_queue x_sign x_missedBits x_awards x_burns x_proposer x_rel x_p x_acl x_daoOwner x_pool x_feeAcc x_posAcc x_daoAcc x_keys x_nStored x_height x_time x_index x_blockTxs x_bal2 x_supply2 x_upgrade x_keyNodes).blockTxs = x_blockTxs := rfl
-@[simp] theorem mk0_bal2 : (mk0 x_bal x_supply x_vals x_idx x_prev x_prevTot x_queue x_sign x_missedBits x_awards x_burns x_proposer x_rel x_p x_acl x_daoOwner x_pool x_feeAcc x_posAcc x_daoAcc x_keys x_nStored x_height x_time x_index x_blockTxs x_bal2 x_supply2 x_upgrade x_keyNodes).bal2 = x_bal2 := rfl
-@[simp] theorem mk0_supply2 : (mk0 x_bal x_supply x_vals x_idx x_prev x_prevTot x_queue x_sign x_missedBits x_awards x_burns x_proposer x_rel x_p x_acl x_daoOwner x_pool x_feeAcc x_posAcc x_daoAcc x_keys x_nStored x_height x_time x_index x_blockTxs x_bal2 x_supply2 x_upgrade x_keyNodes).supply2 = x_supply2 := rfl
-@[simp] theorem mk0_upgrade : (mk0 x_bal x_supply x_vals x_idx x_prev x_prevTot x_queue x_sign x_missedBits x_awards x_burns x_proposer x_rel x_p x_acl x_daoOwner x_pool x_feeAcc x_posAcc x_daoAcc x_keys x_nStored x_height x_time x_index x_blockTxs x_bal2 x_supply2 x_upgrade x_keyNodes).upgrade = x_upgrade := rfl
-@[simp] theorem mk0_keyNodes : (mk0 x_bal x_supply x_vals x_idx x_prev x_prevTot x_queue x_sign x_missedBits x_awards x_burns x_proposer x_rel x_p x_acl x_daoOwner x_pool x_feeAcc x_posAcc x_daoAcc x_keys x_nStored x_height x_time x_index x_blockTxs x_bal2 x_supply2 x_upgrade x_keyNodes).keyNodes = x_keyNodes := rfl
+    State.mk x_bal x_supply x_vals x_idx x_prev x_prevTot x_queue x_sign x_missedBits x_awards x_burns x_proposer x_rel x_p x_acl x_daoOwner x_pool x_feeAcc x_posAcc x_daoAcc x_keys x_nStored x_height x_time x_cHeight x_cTime x_index x_blockTxs x_bal2 x_supply2 x_upgrade x_keyNodes x_accts x_keyed =
+      setCH (mk0 x_bal x_supply x_vals x_idx x_prev x_prevTot x_queue x_sign x_missedBits x_awards x_burns x_proposer x_rel x_p x_acl x_daoOwner x_pool x_feeAcc x_posAcc x_daoAcc x_keys x_nStored x_height x_time x_index x_blockTxs x_bal2 x_supply2 x_upgrade x_keyNodes x_accts x_keyed) x_cHeight x_cTime := rfl
+@[simp] theorem mk0_bal : (mk0 x_bal x_supply x_vals x_idx x_prev x_prevTot x_queue x_sign x_missedBits x_awards x_burns x_proposer x_rel x_p x_acl x_daoOwner x_pool x_feeAcc x_posAcc x_daoAcc x_keys x_nStored x_height x_time x_index x_blockTxs x_bal2 x_supply2 x_upgrade x_keyNodes x_accts x_keyed).bal = x_bal := rfl
+@[simp] theorem mk0_supply : (mk0 x_bal x_supply x_vals x_idx x_prev x_prevTot x_queue x_sign x_missedBits x_awards x_burns x_proposer x_rel x_p x_acl x_daoOwner x_pool x_feeAcc x_posAcc x_daoAcc x_keys x_nStored x_height x_time x_index x_blockTxs x_bal2 x_supply2 x_upgrade x_keyNodes x_accts x_keyed).supply = x_supply := rfl
+@[simp] theorem mk0_vals : (mk0 x_bal x_supply x_vals x_idx x_prev x_prevTot x_queue x_sign x_missedBits x_awards x_burns x_proposer x_rel x_p x_acl x_daoOwner x_pool x_feeAcc x_posAcc x_daoAcc x_keys x_nStored x_height x_time x_index x_blockTxs x_bal2 x_supply2 x_upgrade x_keyNodes x_accts x_keyed).vals = x_vals := rfl
+@[simp] theorem mk0_idx : (mk0 x_bal x_supply x_vals x_idx x_prev x_prevTot x_queue x_sign x_missedBits x_awards x_burns x_proposer x_rel x_p x_acl x_daoOwner x_pool x_feeAcc x_posAcc x_daoAcc x_keys x_nStored x_height x_time x_index x_blockTxs x_bal2 x_supply2 x_upgrade x_keyNodes x_accts x_keyed).idx = x_idx := rfl
+@[simp] theorem mk0_prev : (mk0 x_bal x_supply x_vals x_idx x_prev x_prevTot x_queue x_sign x_missedBits x_awards x_burns x_proposer x_rel x_p x_acl x_daoOwner x_pool x_feeAcc x_posAcc x_daoAcc x_keys x_nStored x_height x_time x_index x_blockTxs x_bal2 x_supply2 x_upgrade x_keyNodes x_accts x_keyed).prev = x_prev := rfl
+@[simp] theorem mk0_prevTot : (mk0 x_bal x_supply x_vals x_idx x_prev x_prevTot x_queue x_sign x_missedBits x_awards x_burns x_proposer x_rel x_p x_acl x_daoOwner x_pool x_feeAcc x_posAcc x_daoAcc x_keys x_nStored x_height x_time x_index x_blockTxs x_bal2 x_supply2 x_upgrade x_keyNodes x_accts x_keyed).prevTot = x_prevTot := rfl
+@[simp] theorem mk0_queue : (mk0 x_bal x_supply x_vals x_idx x_prev x_prevTot x_queue x_sign x_missedBits x_awards x_burns x_proposer x_rel x_p x_acl x_daoOwner x_pool x_feeAcc x_posAcc x_daoAcc x_keys x_nStored x_height x_time x_index x_blockTxs x_bal2 x_supply2 x_upgrade x_keyNodes x_accts x_keyed).queue = x_queue := rfl
+@[simp] theorem mk0_sign : (mk0 x_bal x_supply x_vals x_idx x_prev x_prevTot x_queue x_sign x_missedBits x_awards x_burns x_proposer x_rel x_p x_acl x_daoOwner x_pool x_feeAcc x_posAcc x_daoAcc x_keys x_nStored x_height x_time x_index x_blockTxs x_bal2 x_supply2 x_upgrade x_keyNodes x_accts x_keyed).sign = x_sign := rfl
+@[simp] theorem mk0_missedBits : (mk0 x_bal x_supply x_vals x_idx x_prev x_prevTot x_queue x_sign x_missedBits x_awards x_burns x_proposer x_rel x_p x_acl x_daoOwner x_pool x_feeAcc x_posAcc x_daoAcc x_keys x_nStored x_height x_time x_index x_blockTxs x_bal2 x_supply2 x_upgrade x_keyNodes x_accts x_keyed).missedBits = x_missedBits := rfl
+@[simp] theorem mk0_awards : (mk0 x_bal x_supply x_vals x_idx x_prev x_prevTot x_queue x_sign x_missedBits x_awards x_burns x_proposer x_rel x_p x_acl x_daoOwner x_pool x_feeAcc x_posAcc x_daoAcc x_keys x_nStored x_height x_time x_index x_blockTxs x_bal2 x_supply2 x_upgrade x_keyNodes x_accts x_keyed).awards = x_awards := rfl
+@[simp] theorem mk0_burns : (mk0 x_bal x_supply x_vals x_idx x_prev x_prevTot x_queue x_sign x_missedBits x_awards x_burns x_proposer x_rel x_p x_acl x_daoOwner x_pool x_feeAcc x_posAcc x_daoAcc x_keys x_nStored x_height x_time x_index x_blockTxs x_bal2 x_supply2 x_upgrade x_keyNodes x_accts x_keyed).burns = x_burns := rfl
+@[simp] theorem mk0_proposer : (mk0 x_bal x_supply x_vals x_idx x_prev x_prevTot x_queue x_sign x_missedBits x_awards x_burns x_proposer x_rel x_p x_acl x_daoOwner x_pool x_feeAcc x_posAcc x_daoAcc x_keys x_nStored x_height x_time x_index x_blockTxs x_bal2 x_supply2 x_upgrade x_keyNodes x_accts x_keyed).proposer = x_proposer := rfl
+@[simp] theorem mk0_rel : (mk0 x_bal x_supply x_vals x_idx x_prev x_prevTot x_queue x_sign x_missedBits x_awards x_burns x_proposer x_rel x_p x_acl x_daoOwner x_pool x_feeAcc x_posAcc x_daoAcc x_keys x_nStored x_height x_time x_index x_blockTxs x_bal2 x_supply2 x_upgrade x_keyNodes x_accts x_keyed).rel = x_rel := rfl
+@[simp] theorem mk0_p : (mk0 x_bal x_supply x_vals x_idx x_prev x_prevTot x_queue x_sign x_missedBits x_awards x_burns x_proposer x_rel x_p x_acl x_daoOwner x_pool x_feeAcc x_posAcc x_daoAcc x_keys x_nStored x_height x_time x_index x_blockTxs x_bal2 x_supply2 x_upgrade x_keyNodes x_accts x_keyed).p = x_p := rfl
+@[simp] theorem mk0_acl : (mk0 x_bal x_supply x_vals x_idx x_prev x_prevTot x_queue x_sign x_missedBits x_awards x_burns x_proposer x_rel x_p x_acl x_daoOwner x_pool x_feeAcc x_posAcc x_daoAcc x_keys x_nStored x_height x_time x_index x_blockTxs x_bal2 x_supply2 x_upgrade x_keyNodes x_accts x_keyed).acl = x_acl := rfl
+@[simp] theorem mk0_daoOwner : (mk0 x_bal x_supply x_vals x_idx x_prev x_prevTot x_queue x_sign x_missedBits x_awards x_burns x_proposer x_rel x_p x_acl x_daoOwner x_pool x_feeAcc x_posAcc x_daoAcc x_keys x_nStored x_height x_time x_index x_blockTxs x_bal2 x_supply2 x_upgrade x_keyNodes x_accts x_keyed).daoOwner = x_daoOwner := rfl
+@[simp] theorem mk0_pool : (mk0 x_bal x_supply x_vals x_idx x_prev x_prevTot x_queue x_sign x_missedBits x_awards x_burns x_proposer x_rel x_p x_acl x_daoOwner x_pool x_feeAcc x_posAcc x_daoAcc x_keys x_nStored x_height x_time x_index x_blockTxs x_bal2 x_supply2 x_upgrade x_keyNodes x_accts x_keyed).pool = x_pool := rfl
+@[simp] theorem mk0_feeAcc : (mk0 x_bal x_supply x_vals x_idx x_prev x_prevTot x_queue x_sign x_missedBits x_awards x_burns x_proposer x_rel x_p x_acl x_daoOwner x_pool x_feeAcc x_posAcc x_daoAcc x_keys x_nStored x_height x_time x_index x_blockTxs x_bal2 x_supply2 x_upgrade x_keyNodes x_accts x_keyed).feeAcc = x_feeAcc := rfl
+@[simp] theorem mk0_posAcc : (mk0 x_bal x_supply x_vals x_idx x_prev x_prevTot x_queue x_sign x_missedBits x_awards x_burns x_proposer x_rel x_p x_acl x_daoOwner x_pool x_feeAcc x_posAcc x_daoAcc x_keys x_nStored x_height x_time x_index x_blockTxs x_bal2 x_supply2 x_upgrade x_keyNodes x_accts x_keyed).posAcc = x_posAcc := rfl
+@[simp] theorem mk0_daoAcc : (mk0 x_bal x_supply x_vals x_idx x_prev x_prevTot x_queue x_sign x_missedBits x_awards x_burns x_proposer x_rel x_p x_acl x_daoOwner x_pool x_feeAcc x_posAcc x_daoAcc x_keys x_nStored x_height x_time x_index x_blockTxs x_bal2 x_supply2 x_upgrade x_keyNodes x_accts x_keyed).daoAcc = x_daoAcc := rfl
+@[simp] theorem mk0_keys : (mk0 x_bal x_supply x_vals x_idx x_prev x_prevTot x_queue x_sign x_missedBits x_awards x_burns x_proposer x_rel x_p x_acl x_daoOwner x_pool x_feeAcc x_posAcc x_daoAcc x_keys x_nStored x_height x_time x_index x_blockTxs x_bal2 x_supply2 x_upgrade x_keyNodes x_accts x_keyed).keys = x_keys := rfl
+@[simp] theorem mk0_nStored : (mk0 x_bal x_supply x_vals x_idx x_prev x_prevTot x_queue x_sign x_missedBits x_awards x_burns x_proposer x_rel x_p x_acl x_daoOwner x_pool x_feeAcc x_posAcc x_daoAcc x_keys x_nStored x_height x_time x_index x_blockTxs x_bal2 x_supply2 x_upgrade x_keyNodes x_accts x_keyed).nStored = x_nStored := rfl
+@[simp] theorem mk0_height : (mk0 x_bal x_supply x_vals x_idx x_prev x_prevTot x_queue x_sign x_missedBits x_awards x_burns x_proposer x_rel x_p x_acl x_daoOwner x_pool x_feeAcc x_posAcc x_daoAcc x_keys x_nStored x_height x_time x_index x_blockTxs x_bal2 x_supply2 x_upgrade x_keyNodes x_accts x_keyed).height = x_height := rfl
+@[simp] theorem mk0_time : (mk0 x_bal x_supply x_vals x_idx x_prev x_prevTot x_queue x_sign x_missedBits x_awards x_burns x_proposer x_rel x_p x_acl x_daoOwner x_pool x_feeAcc x_posAcc x_daoAcc x_keys x_nStored x_height x_time x_index x_blockTxs x_bal2 x_supply2 x_upgrade x_keyNodes x_accts x_keyed).time = x_time := rfl
+@[simp] theorem mk0_index : (mk0 x_bal x_supply x_vals x_idx x_prev x_prevTot x_queue x_sign x_missedBits x_awards x_burns x_proposer x_rel x_p x_acl x_daoOwner x_pool x_feeAcc x_posAcc x_daoAcc x_keys x_nStored x_height x_time x_index x_blockTxs x_bal2 x_supply2 x_upgrade x_keyNodes x_accts x_keyed).index = x_index := rfl
+@[simp] theorem mk0_blockTxs : (mk0 x_bal x_supply x_vals x_idx x_prev x_prevTot x_queue x_sign x_missedBits x_awards x_burns x_proposer x_rel x_p x_acl x_daoOwner x_pool x_feeAcc x_posAcc x_daoAcc x_keys x_nStored x_height x_time x_index x_blockTxs x_bal2 x_supply2 x_upgrade x_keyNodes x_accts x_keyed).blockTxs = x_blockTxs := rfl
+@[simp] theorem mk0_bal2 : (mk0 x_bal x_supply x_vals x_idx x_prev x_prevTot x_queue x_sign x_missedBits x_awards x_burns x_proposer x_rel x_p x_acl x_daoOwner x_pool x_feeAcc x_posAcc x_daoAcc x_keys x_nStored x_height x_time x_index x_blockTxs x_bal2 x_supply2 x_upgrade x_keyNodes x_accts x_keyed).bal2 = x_bal2 := rfl
+@[simp] theorem mk0_supply2 : (mk0 x_bal x_supply x_vals x_idx x_prev x_prevTot x_queue x_sign x_missedBits x_awards x_burns x_proposer x_rel x_p x_acl x_daoOwner x_pool x_feeAcc x_posAcc x_daoAcc x_keys x_nStored x_height x_time x_index x_blockTxs x_bal2 x_supply2 x_upgrade x_keyNodes x_accts x_keyed).supply2 = x_supply2 := rfl
+@[simp] theorem mk0_upgrade : (mk0 x_bal x_supply x_vals x_idx x_prev x_prevTot x_queue x_sign x_missedBits x_awards x_burns x_proposer x_rel x_p x_acl x_daoOwner x_pool x_feeAcc x_posAcc x_daoAcc x_keys x_nStored x_height x_time x_index x_blockTxs x_bal2 x_supply2 x_upgrade x_keyNodes x_accts x_keyed).upgrade = x_upgrade := rfl
+@[simp] theorem mk0_keyNodes : (mk0 x_bal x_supply x_vals x_idx x_prev x_prevTot x_queue x_sign x_missedBits x_awards x_burns x_proposer x_rel x_p x_acl x_daoOwner x_pool x_feeAcc x_posAcc x_daoAcc x_keys x_nStored x_height x_time x_index x_blockTxs x_bal2 x_supply2 x_upgrade x_keyNodes x_accts x_keyed).keyNodes = x_keyNodes := rfl
+@[simp] theorem mk0_accts : (mk0 x_bal x_supply x_vals x_idx x_prev x_prevTot x_queue x_sign x_missedBits x_awards x_burns x_proposer x_rel x_p x_acl x_daoOwner x_pool x_feeAcc x_posAcc x_daoAcc x_keys x_nStored x_height x_time x_index x_blockTxs x_bal2 x_supply2 x_upgrade x_keyNodes x_accts x_keyed).accts = x_accts := rfl
+@[simp] theorem mk0_keyed : (mk0 x_bal x_supply x_vals x_idx x_prev x_prevTot x_queue x_sign x_missedBits x_awards x_burns x_proposer x_rel x_p x_acl x_daoOwner x_pool x_feeAcc x_posAcc x_daoAcc x_keys x_nStored x_height x_time x_index x_blockTxs x_bal2 x_supply2 x_upgrade x_keyNodes x_accts x_keyed).keyed = x_keyed := rfl
 end mk0
 
 @[simp] theorem map_map_setCH (o : Option State) (h' t' : Int) :
@@ -296,14 +302,14 @@ macro "ch_fields" : tactic => `(tactic| try dsimp +instances only [
   bal_setCH, supply_setCH, vals_setCH, idx_setCH, prev_setCH, prevTot_setCH, queue_setCH, sign_setCH, missedBits_setCH,
   awards_setCH, burns_setCH, proposer_setCH, rel_setCH, p_setCH, acl_setCH, daoOwner_setCH, pool_setCH, feeAcc_setCH,
   posAcc_setCH, daoAcc_setCH, keys_setCH, nStored_setCH, height_setCH, time_setCH, index_setCH, blockTxs_setCH,
-  cHeight_setCH, cTime_setCH, bal2_setCH, supply2_setCH, upgrade_setCH, keyNodes_setCH, keyAddr_setCH, balOf_setCH, balOf2_setCH])
+  cHeight_setCH, cTime_setCH, bal2_setCH, supply2_setCH, upgrade_setCH, keyNodes_setCH, accts_setCH, keyed_setCH, keyAddr_setCH, balOf_setCH, balOf2_setCH, acctExists_setCH])
 
 open Lean.Parser.Tactic in
 macro "ch_simp" "[" ts:simpLemma,* "]" : tactic => `(tactic| simp +instances only [mk_eq,
   bal_setCH, supply_setCH, vals_setCH, idx_setCH, prev_setCH, prevTot_setCH, queue_setCH, sign_setCH, missedBits_setCH,
   awards_setCH, burns_setCH, proposer_setCH, rel_setCH, p_setCH, acl_setCH, daoOwner_setCH, pool_setCH, feeAcc_setCH,
   posAcc_setCH, daoAcc_setCH, keys_setCH, nStored_setCH, height_setCH, time_setCH, index_setCH, blockTxs_setCH,
-  cHeight_setCH, cTime_setCH, bal2_setCH, supply2_setCH, upgrade_setCH, keyNodes_setCH, setCH_setCH, map_map_setCH, getD_map_setCH, ite_setCH,
+  cHeight_setCH, cTime_setCH, bal2_setCH, supply2_setCH, upgrade_setCH, keyNodes_setCH, accts_setCH, keyed_setCH, acctExists_setCH, touch_setCH, setCH_setCH, map_map_setCH, getD_map_setCH, ite_setCH,
   keyAddr_setCH, balOf_setCH, setBal_setCH, send_setCH, balOf2_setCH, setBal2_setCH, send2_setCH, mint_setCH, burnFrom_setCH, setStaked_setCH, delStaked_setCH, setVal_setCH,
   enqueue_setCH, dequeue_setCH, forceUnstake_setCH, slash_setCH, jail_setCH,
   Option.map_none, Option.map_some, $ts,*])
